@@ -66,7 +66,10 @@ func (v *Verdict) noteDev(d *DevLog, plan *DevPlan) {
 		v.fire("short_read")
 	}
 	if d.ErrKind != 0 {
-		v.fire([]string{"", "err_eof", "err_unexpected_eof", "err_sentinel"}[d.ErrKind])
+		v.fire(errKindNames[d.ErrKind])
+		if d.Recovered {
+			v.fire("device_recovered_after_error")
+		}
 		if d.ErrWith {
 			v.fire("err_with_data")
 		} else {
